@@ -129,8 +129,8 @@ Section Vars.
   (* RunWithContext + execute: env.push(v); for i := len(vars)-1 … 0 { env.push(vars[i]) }
      so vars[0] is on top when the first opstore runs *)
   Definition run_vars (names : list N) (v : V) (values : list V) : run_result :=
-    if (length names <? length values)%nat then TooManyValues
-    else if (length values <? length names)%nat then ExpectedVariable (nth (length values) names 0)
+    if Nat.ltb (length names) (length values) then TooManyValues
+    else if Nat.ltb (length values) (length names) then ExpectedVariable (nth (length values) names 0)
     else let '(slots, vs) := compile_vars names [] in
          match exec_stores slots (values ++ [v]) (fun _ => None) with
          | Some (st, e) => Running st vs e
